@@ -269,6 +269,9 @@ theorem delta?_ok {i j n m : Nat} {d : Matrix} {x : List Nat} {xi a xj b : Nat}
   rfl
 
 
+theorem getLast?_eq_getLastD (x : List Nat) (h : x ≠ []) : x.getLast? = some (x.getLastD 0) := by
+  simp [List.getLastD_eq_getLast?, List.getLast?_eq_some_getLast h]
+
 /-- the four reads of the kernel and the true change of the tour length, for every admissible
 index pair: `i < j < n`, not the whole array -/
 theorem delta_core (d : Matrix) (x : List Nat) (i j n : Nat) (hlen : x.length = n)
@@ -301,8 +304,7 @@ theorem delta_core (d : Matrix) (x : List Nat) (i j n : Nat) (hlen : x.length = 
       refine ⟨s, (q :: Q).getLastD 0, t, q, hxi, ?_, hxj, ?_, by simp, ?_, by simp, by simp, ?_⟩
       · rw [getW?_zero]
         have e : [] ++ s :: M ++ t :: q :: Q = (s :: M ++ [t]) ++ q :: Q := by simp
-        rw [e, List.getLast?_eq_some_getLast (by simp)]
-        simp [List.getLastD_eq_getLast?, List.getLast?_eq_some_getLast, List.getLast_append]
+        rw [e, getLast?_eq_getLastD _ (by simp), getLastD_append_cons]
       · rw [hmod]
         have e : [] ++ s :: M ++ t :: q :: Q = (s :: M ++ [t]) ++ q :: Q := by simp
         rw [e]; exact getElem?_at _ _ _ _ (by simp; simp at hjj; omega)
@@ -317,7 +319,8 @@ theorem delta_core (d : Matrix) (x : List Nat) (i j n : Nat) (hlen : x.length = 
       · have := core_left d s M t q Q hs'
         simp only [List.nil_append]
         rw [this]; unfold deltaT; omega
-  · subst hA
+  · rw [List.concat_eq_append] at hA
+    subst hA
     have hi' : i = P.length + 1 := by simp at hi; omega
     have hxa : getW? (P ++ [p] ++ s :: M ++ t :: B) ((i : Int) - 1) = some p := by
       rw [hi', getW?_succ]
@@ -344,5 +347,466 @@ theorem delta_core (d : Matrix) (x : List Nat) (i j n : Nat) (hlen : x.length = 
         have e1 : P ++ [p] ++ t :: M.reverse ++ s :: q :: Q = P ++ p :: t :: M.reverse ++ s :: q :: Q := by simp
         have e2 : P ++ [p] ++ s :: M ++ t :: q :: Q = P ++ p :: s :: M ++ t :: q :: Q := by simp
         rw [e1, e2, this]; unfold deltaT; omega
+
+
+/-! ### permutation facts -/
+
+theorem sliceI_perm (x : List Nat) (i j : Nat) : (sliceI x i j).Perm x := by
+  unfold sliceI
+  split
+  · next h =>
+    have e : x.take i = (x.take (j + 1)).take i := by
+      rw [List.take_take]; congr 1; omega
+    have h1 : (x.take i ++ ((x.take (j + 1)).drop i).reverse ++ x.drop (j + 1)).Perm
+        (x.take i ++ (x.take (j + 1)).drop i ++ x.drop (j + 1)) :=
+      List.Perm.append_right _ (List.Perm.append_left _ (List.reverse_perm _))
+    have h2 : x.take i ++ (x.take (j + 1)).drop i ++ x.drop (j + 1) = x := by
+      rw [e, List.take_append_drop, List.take_append_drop]
+    rw [h2] at h1; exact h1
+  · exact List.Perm.refl _
+
+theorem applyRev_perm (x : List Nat) (i j : Nat) : (applyRev x i j).Perm x := by
+  rw [applyRev_eq_sliceI]; exact sliceI_perm x i j
+
+theorem isPerm_length {x : List Nat} {n : Nat} (h : IsPerm x n) : x.length = n := by
+  simpa using h.length_eq
+
+theorem isPerm_lt {x : List Nat} {n : Nat} (h : IsPerm x n) : ∀ c ∈ x, c < n := by
+  intro c hc; have := (h.mem_iff).mp hc; simpa using this
+
+theorem sym_on {d : Matrix} {n : Nat} {x : List Nat} (hsym : Symmetric d n) (hp : IsPerm x n) :
+    ∀ a ∈ x, ∀ b ∈ x, entry d a b = entry d b a :=
+  fun a ha b hb => hsym a (isPerm_lt hp a ha) b (isPerm_lt hp b hb)
+
+/-- `normMove` only lets ordered, distinct index pairs through; with draws from `integers(n-1)` the
+larger one is at most `n - 2` -/
+theorem normMove_some {n a b i j : Nat} (h : normMove n a b = some (i, j)) (ha : a + 1 < n) (hb : b + 1 < n) :
+    i < j ∧ j + 1 < n := by
+  unfold normMove at h
+  by_cases hab : a > b
+  · simp only [hab, if_true] at h
+    split at h
+    · simp at h
+    · simp only [Option.some.injEq, Prod.mk.injEq] at h; omega
+  · simp only [hab, if_false] at h
+    split at h
+    · simp at h
+    · simp only [Option.some.injEq, Prod.mk.injEq] at h; omega
+
+
+/-! ### one kernel call -/
+
+theorem delta_correct' {d : Matrix} {n : Nat} {x : List Nat} {i j : Nat} {dy : Int}
+    (hsym : Symmetric d n) (hp : IsPerm x n) (hij : i < j) (hj : j < n) (hne : ¬(i = 0 ∧ j + 1 = n))
+    (h : delta? i j n d x = some dy) : cyclicSum d (applyRev x i j) = cyclicSum d x + dy := by
+  obtain ⟨xi, a, xj, b, r1, r2, r3, r4, _, _, _, _, hc⟩ :=
+    delta_core d x i j n (isPerm_length hp) hij hj hne (sym_on hsym hp)
+  rw [hc, delta?_val r1 r2 r3 r4 h]
+
+theorem applyRev_isPerm {x : List Nat} {n : Nat} (i j : Nat) (hp : IsPerm x n) : IsPerm (applyRev x i j) n :=
+  (applyRev_perm x i j).trans hp
+
+theorem ea_step {d : Matrix} {n : Nat} {x : List Nat} {y : Int} {i j : Nat} {x' : List Nat} {y' : Int}
+    (hsym : Symmetric d n) (hp : IsPerm x n) (hij : i < j) (hj : j < n) (hne : ¬(i = 0 ∧ j + 1 = n))
+    (hy : y = cyclicSum d x) (h : revIfNotWorse? i j n d x y = some (x', y')) :
+    IsPerm x' n ∧ y' = cyclicSum d x' ∧ y' ≤ y := by
+  unfold revIfNotWorse? at h
+  cases hd : delta? i j n d x with
+  | none => simp [hd] at h
+  | some dy =>
+    simp only [hd, Option.bind_eq_bind, Option.bind_some] at h
+    split at h
+    · next hle =>
+      simp only [Option.pure_def, Option.some.injEq, Prod.mk.injEq] at h
+      obtain ⟨rfl, rfl⟩ := h
+      refine ⟨applyRev_isPerm i j hp, ?_, by omega⟩
+      rw [delta_correct' hsym hp hij hj hne hd, hy]
+    · simp only [Option.pure_def, Option.some.injEq, Prod.mk.injEq] at h
+      obtain ⟨rfl, rfl⟩ := h
+      exact ⟨hp, hy, by omega⟩
+
+theorem hInc?_size {h h' : Array Int} {k : Int} (e : hInc? h k = some h') : h'.size = h.size := by
+  unfold hInc? at e
+  cases hw : wrapIdx h.size k with
+  | none => simp [hw] at e
+  | some p => simp [hw] at e; subst e; simp
+
+theorem fea_step {d : Matrix} {n : Nat} {x : List Nat} {y : Int} {i j : Nat} {hh : Array Int} {o : FOut}
+    (hsym : Symmetric d n) (hp : IsPerm x n) (hij : i < j) (hj : j < n) (hne : ¬(i = 0 ∧ j + 1 = n))
+    (hy : y = cyclicSum d x) (h : revIfHNotWorse? i j n d hh x y = some o) :
+    IsPerm o.x n ∧ o.y = cyclicSum d o.x ∧ o.idx1 = cyclicSum d x ∧
+      o.idx2 = cyclicSum d (applyRev x i j) ∧ o.h.size = hh.size := by
+  unfold revIfHNotWorse? at h
+  simp only [Option.bind_eq_bind, Option.bind_eq_some_iff] at h
+  obtain ⟨dy, hd, h1, e1, h2, e2, hy2, _, hy1, _, hfin⟩ := h
+  have hc := delta_correct' hsym hp hij hj hne hd
+  have hs : h2.size = hh.size := by rw [hInc?_size e2, hInc?_size e1]
+  split at hfin
+  · simp only [Option.pure_def, Option.some.injEq] at hfin
+    subst hfin
+    exact ⟨applyRev_isPerm i j hp, by simp [hc, hy], hy, by simp [hc, hy], hs⟩
+  · simp only [Option.pure_def, Option.some.injEq] at hfin
+    subst hfin
+    exact ⟨hp, hy, hy, by simp [hc, hy], hs⟩
+
+/-! ### the loops -/
+
+theorem eaLoop_inv (d : Matrix) (n : Nat) (hsym : Symmetric d n) :
+    ∀ (ms : List (Nat × Nat)) (x : List Nat) (y : Int) (tr : List (List Nat × Int)),
+      MovesInRange n ms → IsPerm x n → y = cyclicSum d x → eaLoop? n d ms x y = some tr →
+      (∀ r ∈ tr, TrueReg d n r.1 r.2) ∧ List.Pairwise (fun a b => b ≤ a) (y :: tr.map (·.2)) := by
+  intro ms
+  induction ms with
+  | nil =>
+    intro x y tr _ _ _ h
+    simp [eaLoop?] at h; subst h; simp
+  | cons m ms ih =>
+    intro x y tr hm hp hy h
+    obtain ⟨a, b⟩ := m
+    have hm' : MovesInRange n ms := fun m hmm => hm m (List.mem_cons_of_mem _ hmm)
+    have hab := hm (a, b) (by simp)
+    unfold eaLoop? at h
+    cases hn : normMove n a b with
+    | none => simp only [hn] at h; exact ih x y tr hm' hp hy h
+    | some ij =>
+      obtain ⟨i, j⟩ := ij
+      obtain ⟨hij, hj⟩ := normMove_some hn hab.1 hab.2
+      simp only [hn] at h
+      cases hk : revIfNotWorse? i j n d x y with
+      | none => simp [hk] at h
+      | some xy =>
+        obtain ⟨x', y'⟩ := xy
+        simp only [hk, Option.map_eq_some_iff] at h
+        obtain ⟨tr', htr', rfl⟩ := h
+        obtain ⟨hp', hy', hle⟩ := ea_step hsym hp hij (by omega) (by omega) hy hk
+        obtain ⟨i1, i2⟩ := ih x' y' tr' hm' hp' hy' htr'
+        constructor
+        · intro r hr
+          simp only [List.mem_cons] at hr
+          rcases hr with rfl | hr
+          · exact ⟨hp', hy'⟩
+          · exact i1 r hr
+        · simp only [List.map_cons, List.pairwise_cons] at i2 ⊢
+          refine ⟨?_, i2⟩
+          intro z hz
+          simp only [List.mem_cons] at hz
+          rcases hz with rfl | hz
+          · exact hle
+          · have := i2.1 z hz; omega
+
+/-- `v` is the length of some tour -/
+def IsTourLen (d : Matrix) (n : Nat) (v : Int) : Prop := ∃ z, IsPerm z n ∧ v = cyclicSum d z
+
+theorem feaLoop_inv (d : Matrix) (n : Nat) (hsym : Symmetric d n) :
+    ∀ (ms : List (Nat × Nat)) (h : Array Int) (x : List Nat) (y : Int) (tr : List FReg) (hf : Array Int) (yf : Int),
+      MovesInRange n ms → IsPerm x n → y = cyclicSum d x → feaLoop? n d ms h x y = some (tr, hf, yf) →
+      (∀ r ∈ tr, TrueReg d n r.x r.y ∧ IsTourLen d n r.idx1 ∧ IsTourLen d n r.idx2) ∧
+      IsTourLen d n yf ∧ hf.size = h.size := by
+  intro ms
+  induction ms with
+  | nil =>
+    intro h x y tr hf yf _ hp hy e
+    simp [feaLoop?] at e
+    obtain ⟨rfl, rfl, rfl⟩ := e
+    exact ⟨by simp, ⟨x, hp, hy⟩, rfl⟩
+  | cons m ms ih =>
+    intro h x y tr hf yf hm hp hy e
+    obtain ⟨a, b⟩ := m
+    have hm' : MovesInRange n ms := fun m hmm => hm m (List.mem_cons_of_mem _ hmm)
+    have hab := hm (a, b) (by simp)
+    unfold feaLoop? at e
+    cases hn : normMove n a b with
+    | none => simp only [hn] at e; exact ih h x y tr hf yf hm' hp hy e
+    | some ij =>
+      obtain ⟨i, j⟩ := ij
+      obtain ⟨hij, hj⟩ := normMove_some hn hab.1 hab.2
+      simp only [hn] at e
+      cases hk : revIfHNotWorse? i j n d h x y with
+      | none => simp [hk] at e
+      | some o =>
+        simp only [hk, Option.map_eq_some_iff] at e
+        obtain ⟨⟨tr', hf', yf'⟩, htr', e'⟩ := e
+        simp only [Prod.mk.injEq] at e'
+        obtain ⟨rfl, rfl, rfl⟩ := e'
+        obtain ⟨hp', hy', h1, h2, hsz⟩ := fea_step hsym hp hij (by omega) (by omega) hy hk
+        obtain ⟨i1, i2, i3⟩ := ih o.h o.x o.y tr' hf' yf' hm' hp' hy' htr'
+        refine ⟨?_, i2, by omega⟩
+        intro r hr
+        simp only [List.mem_cons] at hr
+        rcases hr with rfl | hr
+        · exact ⟨⟨hp', hy'⟩, ⟨x, hp, h1⟩, ⟨_, applyRev_isPerm i j hp, h2⟩⟩
+        · exact i1 r hr
+
+/-! ### no access outside the arrays -/
+
+theorem getW?_ok (x : List Nat) (i : Nat) (hi : i < x.length) :
+    ∃ a, getW? x ((i : Int) - 1) = some a ∧ a ∈ x := by
+  cases i with
+  | zero =>
+    have hne : x ≠ [] := by intro h; subst h; simp at hi
+    refine ⟨x.getLastD 0, ?_, ?_⟩
+    · rw [getW?_zero, getLast?_eq_getLastD x hne]
+    · simp only [List.getLastD_eq_getLast?, List.getLast?_eq_some_getLast hne, Option.getD_some]
+      exact List.getLast_mem _
+  | succ k =>
+    have hk : k < x.length := by omega
+    exact ⟨x[k], by rw [getW?_succ, List.getElem?_eq_getElem hk], List.getElem_mem hk⟩
+
+/-- memory safety of the delta computation needs neither symmetry nor a permutation:
+any tour of length `n` over cities `< n`, any two indices `< n` -/
+theorem delta?_noOOB {d : Matrix} {n : Nat} {x : List Nat} {i j : Nat} (hd : Square d n)
+    (hlen : x.length = n) (hr : ∀ c ∈ x, c < n) (hi : i < n) (hj : j < n) :
+    ∃ dy, delta? i j n d x = some dy := by
+  have hi' : i < x.length := by omega
+  have hj' : j < x.length := by omega
+  have hn : n ≠ 0 := by omega
+  have hm : (j + 1) % n < x.length := by rw [hlen]; exact Nat.mod_lt _ (by omega)
+  obtain ⟨a, ha, hax⟩ := getW?_ok x i hi'
+  exact ⟨_, delta?_ok (List.getElem?_eq_getElem hi') ha (List.getElem?_eq_getElem hj') hn
+    (List.getElem?_eq_getElem hm) hd (hr _ (List.getElem_mem hi')) (hr _ hax)
+    (hr _ (List.getElem_mem hj')) (hr _ (List.getElem_mem hm))⟩
+
+theorem revIfNotWorse?_perm {d : Matrix} {n i j : Nat} {x x' : List Nat} {y y' : Int}
+    (h : revIfNotWorse? i j n d x y = some (x', y')) : x'.Perm x := by
+  unfold revIfNotWorse? at h
+  simp only [Option.bind_eq_bind, Option.bind_eq_some_iff] at h
+  obtain ⟨dy, _, h⟩ := h
+  split at h <;> simp only [Option.pure_def, Option.some.injEq, Prod.mk.injEq] at h <;> obtain ⟨rfl, _⟩ := h
+  · exact applyRev_perm x i j
+  · exact List.Perm.refl _
+
+theorem revIfNotWorse?_ok {d : Matrix} {n : Nat} {x : List Nat} {i j : Nat} (y : Int) (hd : Square d n)
+    (hlen : x.length = n) (hr : ∀ c ∈ x, c < n) (hi : i < n) (hj : j < n) :
+    ∃ r, revIfNotWorse? i j n d x y = some r := by
+  obtain ⟨dy, h⟩ := delta?_noOOB hd hlen hr hi hj
+  unfold revIfNotWorse?
+  simp only [h, Option.bind_eq_bind, Option.bind_some]
+  split <;> exact ⟨_, rfl⟩
+
+theorem eaLoop?_ok (d : Matrix) (n : Nat) (hd : Square d n) :
+    ∀ (ms : List (Nat × Nat)) (x : List Nat) (y : Int), MovesInRange n ms → IsPerm x n →
+      ∃ tr, eaLoop? n d ms x y = some tr := by
+  intro ms
+  induction ms with
+  | nil => intro x y _ _; exact ⟨[], rfl⟩
+  | cons m ms ih =>
+    intro x y hm hp
+    obtain ⟨a, b⟩ := m
+    have hm' : MovesInRange n ms := fun m hmm => hm m (List.mem_cons_of_mem _ hmm)
+    have hab := hm (a, b) (by simp)
+    unfold eaLoop?
+    cases hn : normMove n a b with
+    | none => exact ih x y hm' hp
+    | some ij =>
+      obtain ⟨i, j⟩ := ij
+      obtain ⟨hij, hj⟩ := normMove_some hn hab.1 hab.2
+      obtain ⟨⟨x', y'⟩, hk⟩ := revIfNotWorse?_ok y hd (isPerm_length hp) (isPerm_lt hp) (show i < n by omega) (show j < n by omega)
+      have hp' : IsPerm x' n := (revIfNotWorse?_perm hk).trans hp
+      obtain ⟨tr, htr⟩ := ih x' y' hm' hp'
+      simp only [hk, htr]
+      exact ⟨_, rfl⟩
+
+theorem wrapIdx_ok {len : Nat} {k : Int} (h0 : 0 ≤ k) (h1 : k < len) : wrapIdx len k = some k.toNat := by
+  unfold wrapIdx; simp [h0, h1]
+
+theorem hInc?_ok (h : Array Int) (k : Int) (h0 : 0 ≤ k) (h1 : k < h.size) :
+    ∃ h', hInc? h k = some h' ∧ h'.size = h.size := by
+  unfold hInc?
+  rw [wrapIdx_ok h0 h1]
+  exact ⟨_, rfl, by simp⟩
+
+theorem hGet?_ok (h : Array Int) (k : Int) (h0 : 0 ≤ k) (h1 : k < h.size) : ∃ v, hGet? h k = some v := by
+  unfold hGet?
+  rw [wrapIdx_ok h0 h1]
+  have : k.toNat < h.size := by omega
+  exact ⟨h[k.toNat], by simp [this]⟩
+
+theorem revIfHNotWorse?_ok {d : Matrix} {n : Nat} {x : List Nat} {y : Int} {i j : Nat} {hh : Array Int}
+    (hd : Square d n) (hsym : Symmetric d n) (hp : IsPerm x n) (hij : i < j) (hj : j < n)
+    (hne : ¬(i = 0 ∧ j + 1 = n)) (hy : y = cyclicSum d x)
+    (hb : ∀ z, IsPerm z n → 0 ≤ cyclicSum d z ∧ cyclicSum d z < hh.size) :
+    ∃ o, revIfHNotWorse? i j n d hh x y = some o := by
+  obtain ⟨dy, hdy⟩ := delta?_noOOB hd (isPerm_length hp) (isPerm_lt hp) (show i < n by omega) hj
+  have hc := delta_correct' hsym hp hij hj hne hdy
+  have b1 := hb x hp
+  have b2 := hb _ (applyRev_isPerm i j hp)
+  obtain ⟨h1, e1, s1⟩ := hInc?_ok hh y (by omega) (by omega)
+  obtain ⟨h2, e2, s2⟩ := hInc?_ok h1 (y + dy) (by omega) (by omega)
+  obtain ⟨v2, g2⟩ := hGet?_ok h2 (y + dy) (by omega) (by omega)
+  obtain ⟨v1, g1⟩ := hGet?_ok h2 y (by omega) (by omega)
+  unfold revIfHNotWorse?
+  simp only [hdy, e1, e2, g2, g1, Option.bind_eq_bind, Option.bind_some]
+  split <;> exact ⟨_, rfl⟩
+
+theorem feaLoop?_ok (d : Matrix) (n : Nat) (sz : Nat) (hd : Square d n) (hsym : Symmetric d n)
+    (hb : ∀ z, IsPerm z n → 0 ≤ cyclicSum d z ∧ cyclicSum d z < sz) :
+    ∀ (ms : List (Nat × Nat)) (h : Array Int) (x : List Nat) (y : Int), MovesInRange n ms → IsPerm x n →
+      y = cyclicSum d x → h.size = sz → ∃ r, feaLoop? n d ms h x y = some r := by
+  intro ms
+  induction ms with
+  | nil => intro h x y _ _ _ _; exact ⟨_, rfl⟩
+  | cons m ms ih =>
+    intro h x y hm hp hy hs
+    obtain ⟨a, b⟩ := m
+    have hm' : MovesInRange n ms := fun m hmm => hm m (List.mem_cons_of_mem _ hmm)
+    have hab := hm (a, b) (by simp)
+    unfold feaLoop?
+    cases hn : normMove n a b with
+    | none => exact ih h x y hm' hp hy hs
+    | some ij =>
+      obtain ⟨i, j⟩ := ij
+      obtain ⟨hij, hj⟩ := normMove_some hn hab.1 hab.2
+      obtain ⟨o, hk⟩ := revIfHNotWorse?_ok (hh := h) hd hsym hp hij (show j < n by omega) (by omega) hy
+        (by rw [hs]; exact hb)
+      obtain ⟨hp', hy', _, _, hsz⟩ := fea_step hsym hp hij (by omega) (by omega) hy hk
+      obtain ⟨r, hr⟩ := ih o.h o.x o.y hm' hp' hy' (by omega)
+      simp only [hk, hr]
+      exact ⟨_, rfl⟩
+
+
+theorem sliceI_eq_revSpec (x : List Nat) (i j : Nat) (hij : i ≤ j) (hj : j < x.length) :
+    sliceI x i j = revSpec x i j := by
+  apply List.ext_getElem?
+  intro k
+  unfold sliceI revSpec
+  simp only [hij, if_true]
+  by_cases hk : k < x.length
+  · rw [List.getElem?_map, List.getElem?_range hk]
+    simp only [Option.map_some]
+    by_cases h1 : k < i
+    · have : ¬ (i ≤ k ∧ k ≤ j) := by omega
+      simp only [this, if_false]
+      rw [List.append_assoc, List.getElem?_append_left (by simp; omega)]
+      simp [h1, List.getD_eq_getElem?_getD, hk]
+    · by_cases h2 : k ≤ j
+      · have : (i ≤ k ∧ k ≤ j) := by omega
+        simp only [this]
+        rw [List.append_assoc, List.getElem?_append_right (by simp; omega)]
+        rw [List.getElem?_append_left (by simp; omega)]
+        rw [List.getElem?_reverse (by simp; omega)]
+        simp only [List.length_drop, List.length_take, List.length_take, List.getElem?_drop, List.getElem?_take]
+        have e1 : min i x.length = i := by omega
+        have e2 : min (j + 1) x.length = j + 1 := by omega
+        have e3 : i + (j + 1 - i - 1 - (k - i)) = i + j - k := by omega
+        simp only [e1, e2, e3]
+        have : i + j - k < j + 1 := by omega
+        simp [this, List.getD_eq_getElem?_getD, show i + j - k < x.length by omega]
+      · have : ¬ (i ≤ k ∧ k ≤ j) := by omega
+        simp only [this, if_false]
+        rw [List.getElem?_append_right (by simp; omega)]
+        simp only [List.getElem?_drop, List.length_append, List.length_take, List.length_reverse, List.length_drop]
+        have e : j + 1 + (k - (min i x.length + (min (j + 1) x.length - i))) = k := by omega
+        simp [e, List.getD_eq_getElem?_getD, hk]
+  · rw [List.getElem?_eq_none (by simp; omega), List.getElem?_eq_none (by simp; omega)]
+
+theorem applyRev_eq_revSpec (x : List Nat) (i j : Nat) (hij : i ≤ j) (hj : j < x.length) :
+    applyRev x i j = revSpec x i j := by
+  rw [applyRev_eq_sliceI]; exact sliceI_eq_revSpec x i j hij hj
+
+theorem tourLenLoop?_some (d : Matrix) : ∀ (l : List Nat) (acc : Int) (last : Nat) (v : Int),
+    tourLenLoop? d l acc last = some v → v = tourLenLoop d l acc last := by
+  intro l
+  induction l with
+  | nil => intro acc last v h; simp [tourLenLoop?] at h; simp [tourLenLoop, h]
+  | cons c r ih =>
+    intro acc last v h
+    unfold tourLenLoop? at h
+    cases he : entry? d last c with
+    | none => simp [he] at h
+    | some w =>
+      simp only [he] at h
+      rw [tourLenLoop, entry?_some he]
+      exact ih _ _ _ h
+
+/-- whenever the checked `tour_length` kernel returns a value it is the value of the total model -/
+theorem tourLen?_some {d : Matrix} {x : List Nat} {v : Int} (h : tourLen? d x = some v) : v = tourLen d x := by
+  unfold tourLen? at h
+  cases hl : x.getLast? with
+  | none => simp [hl] at h
+  | some l =>
+    simp only [hl] at h
+    unfold tourLen
+    have : x.getLastD 0 = l := by simp [List.getLastD_eq_getLast?, hl]
+    rw [this]
+    exact tourLenLoop?_some d x 0 l v h
+theorem logFix?_size {h h' : Array Int} {y : Int} (e : logFix? h y = some h') : h'.size = h.size := by
+  unfold logFix? at e
+  split at e
+  · simp at e
+  · split at e
+    · simp only [Option.map_eq_some_iff] at e
+      obtain ⟨p, _, rfl⟩ := e
+      simp
+    · simp at e; subst e; rfl
+
+theorem feaSolve?_some {n : Nat} {d : Matrix} {ub : Int} {x0 : List Nat} {moves : List (Nat × Nat)} {out : FeaOut}
+    (h : feaSolve? n d ub x0 moves = some out) :
+    0 ≤ ub + 1 ∧ ∃ y0 hf, tourLen? d x0 = some y0 ∧
+      feaLoop? n d moves (Array.replicate (ub + 1).toNat 0) x0 y0 = some (out.trace, hf, out.lastIdx) ∧
+      out.h.size = hf.size := by
+  unfold feaSolve? at h
+  split at h
+  · simp at h
+  · next hub =>
+    split at h
+    · simp at h
+    · next y0 hy0 =>
+      split at h
+      · simp at h
+      · next tr hf yf hl =>
+        simp only [Option.map_eq_some_iff] at h
+        obtain ⟨h', e, rfl⟩ := h
+        exact ⟨by omega, y0, hf, hy0, hl, logFix?_size e⟩
+
+theorem logFix?_ok (h : Array Int) (y : Int) (h0 : 0 ≤ y) (h1 : y < h.size) : ∃ h', logFix? h y = some h' := by
+  obtain ⟨v, hv⟩ := hGet?_ok h y h0 h1
+  unfold logFix?
+  simp only [hv]
+  split
+  · rw [wrapIdx_ok h0 h1]; exact ⟨_, rfl⟩
+  · exact ⟨_, rfl⟩
+
+theorem feaSolve?_ok (d : Matrix) (n : Nat) (ub : Int) (x0 : List Nat) (moves : List (Nat × Nat))
+    (hd : Square d n) (hsym : Symmetric d n)
+    (hb : ∀ z, IsPerm z n → 0 ≤ cyclicSum d z ∧ cyclicSum d z ≤ ub)
+    (hp : IsPerm x0 n) (hm : MovesInRange n moves) (hub : 0 ≤ ub)
+    (htl : tourLen? d x0 = some (cyclicSum d x0)) :
+    ∃ out, feaSolve? n d ub x0 moves = some out := by
+  have hb' : ∀ z, IsPerm z n → 0 ≤ cyclicSum d z ∧ cyclicSum d z < ((ub + 1).toNat : Nat) := by
+    intro z hz; have := hb z hz; omega
+  obtain ⟨⟨tr, hf, yf⟩, hl⟩ := feaLoop?_ok d n (ub + 1).toNat hd hsym hb' moves
+    (Array.replicate (ub + 1).toNat 0) x0 (cyclicSum d x0) hm hp rfl (by simp)
+  obtain ⟨_, ⟨z, hz, hyf⟩, hsz⟩ := feaLoop_inv d n hsym moves _ x0 _ tr hf yf hm hp rfl hl
+  have bz := hb' z hz
+  obtain ⟨h', e⟩ := logFix?_ok hf yf (by omega) (by rw [hsz]; simp; omega)
+  unfold feaSolve?
+  have : ¬ ub + 1 < 0 := by omega
+  simp only [this, if_false, htl, hl, e]
+  exact ⟨_, rfl⟩
+
+theorem entry_nonneg' (M : Matrix) (hnn : ∀ r ∈ M, ∀ v ∈ r, 0 ≤ v) (a b : Nat) : 0 ≤ entry M a b := by
+  unfold entry
+  by_cases ha : a < M.length
+  · by_cases hb : b < (M[a]).length
+    · have : (M.getD a []).getD b 0 = (M[a])[b] := by
+        simp [List.getD_eq_getElem?_getD, List.getElem?_eq_getElem ha, List.getElem?_eq_getElem hb]
+      rw [this]
+      exact hnn _ (List.getElem_mem ha) _ (List.getElem_mem hb)
+    · simp [List.getD_eq_getElem?_getD, List.getElem?_eq_getElem ha, List.getElem?_eq_none (Nat.le_of_not_lt hb)]
+  · simp [List.getD_eq_getElem?_getD, List.getElem?_eq_none (Nat.le_of_not_lt ha)]
+
+theorem le_sum_of_nonneg (f : Nat → Int) (l : List Nat) (hf : ∀ k ∈ l, 0 ≤ f k) (i : Nat) (hi : i ∈ l) :
+    f i ≤ (l.map f).sum := by
+  induction l with
+  | nil => simp at hi
+  | cons a t ih =>
+    simp only [List.map_cons, List.sum_cons]
+    have hrest : 0 ≤ (t.map f).sum := sum_map_nonneg t f (fun b hb => hf b (List.mem_cons_of_mem _ hb))
+    simp only [List.mem_cons] at hi
+    rcases hi with rfl | hi
+    · omega
+    · have := ih (fun b hb => hf b (List.mem_cons_of_mem _ hb)) hi
+      have := hf a (by simp)
+      omega
 
 end TspEa
